@@ -23,7 +23,7 @@
  "name": "open2_super_validation",
  "props": ["C06"],
  "level": "P",
- "tier": "wip",
+ "tier": "quick",
  "harness": "h_open2_super",
  "sources": ["lib/ext2fs/io_manager.c", "lib/ext2fs/blknum.c"],
  "defines": ["EXT2_CUSTOM_MEMORY_ROUTINES"],
@@ -43,30 +43,10 @@
 */
 /* VERIF-UNIT
 {
- "name": "open2_super_inodes_count",
- "props": ["C06"],
- "level": "P",
- "tier": "wip",
- "harness": "h_open2_super",
- "sources": ["lib/ext2fs/io_manager.c", "lib/ext2fs/blknum.c"],
- "defines": ["EXT2_CUSTOM_MEMORY_ROUTINES"],
- "replace": ["io_channel_set_options"],
- "unwind": 5,
- "unwind_reason": "as open2_super_validation",
- "cbmc_flags": ["--object-bits", "10"],
- "backend": "cadical",
- "functions": ["lib/ext2fs/openfs.c:ext2fs_open2"],
- "timeout": 900,
- "assumes": ["as open2_super_validation; adds the one statement with a 64-bit product: at the cut s_inodes_count = fs->group_desc_count * s_inodes_per_group (unless EXT2_FLAG_IGNORE_SB_ERRORS)"],
- "native": false
-}
-*/
-/* VERIF-UNIT
-{
  "name": "open2_super_desc_min",
  "props": ["C06"],
  "level": "P",
- "tier": "wip",
+ "tier": "quick",
  "harness": "h_open2_super",
  "sources": ["lib/ext2fs/io_manager.c", "lib/ext2fs/blknum.c"],
  "defines": ["EXT2_CUSTOM_MEMORY_ROUTINES"],
@@ -86,7 +66,7 @@
  "name": "open2_super_itable_blocks",
  "props": ["C06"],
  "level": "P",
- "tier": "wip",
+ "tier": "quick",
  "harness": "h_open2_super",
  "sources": ["lib/ext2fs/io_manager.c", "lib/ext2fs/blknum.c"],
  "defines": ["EXT2_CUSTOM_MEMORY_ROUTINES"],
@@ -247,9 +227,6 @@ static void mon_validated(int geometry)
 	CHECK(SBS_BPG_CONSISTENT(sb), "obs: B9 blocks per group = clusters per group * ratio, exactly");
 	CHECK(SBS_BPG_MAX_OK(sb), "obs: B9 blocks per group <= 8 * blocksize * ratio");
 	CHECK(SBS_BPG_MULT8(sb), "obs: B9 blocks per group multiple of 8");
-#endif
-#ifdef VERIF_UNIT_open2_super_inodes_count
-	CHECK((IN.flags & EXT2_FLAG_IGNORE_SB_ERRORS) || SBS_INODES_COUNT_OK(sb, fs->group_desc_count), "cut: B13 inodes count = groups * inodes per group");
 #endif
 	CHECK(fs->desc_blocks >= 1 && fs->desc_blocks <= fs->group_desc_count, "cut: 1 <= descriptor blocks <= groups");
 	CHECK((IN.flags & EXT2_FLAG_IGNORE_SB_ERRORS) || SBS_FIRST_META_BG_OK(sb, fs->desc_blocks), "cut: B14 first_meta_bg <= descriptor blocks");
